@@ -125,6 +125,7 @@ class RunTaskExecutable(Operation):
             handle = OperationExecutionHandle.from_async_process(pid=process.pid)
             handle.stdout = stdout_output
             handle.stderr = stderr_output
+            handle.process = process
             return handle
 
         except ConductorAbort:
